@@ -90,6 +90,8 @@ impl DepsGraph {
     }
 
     pub fn insert(&mut self, asset_key: Dependency, deps: Dependencies, typ: Type) {
+        #[cfg(assets_manager_verif)]
+        crate::verif::emit("Graph", || format!("\"key\":{},\"deps\":{}", crate::verif::dep(&asset_key), crate::verif::deps(&deps)));
         for key in deps.iter() {
             let entry = self.0.entry(key.clone()).or_default();
             entry.rdeps.insert(asset_key.clone());
@@ -158,6 +160,8 @@ impl DepsGraph {
 
     pub fn reload(&mut self, cache: crate::AnyCache, key: OwnedKey) {
         let id = &key.id;
+        #[cfg(assets_manager_verif)]
+        crate::verif::emit("ReloadTry", || crate::verif::key(id, key.type_id));
         let b_key = BorrowedDependency::Asset(&key);
         if let Some(entry) = self.0.get_mut(&b_key as &dyn Key) {
             if let Some(typ) = entry.typ {
